@@ -23,7 +23,14 @@ import (
 	"github.com/elastos/Elastos.ELA/core/types/interfaces"
 	"github.com/elastos/Elastos.ELA/core/types/outputpayload"
 	"github.com/elastos/Elastos.ELA/core/types/payload"
+	dstate "github.com/elastos/Elastos.ELA/dpos/state"
 	"github.com/elastos/Elastos.ELA/elanet/bloom"
+	"github.com/elastos/Elastos.ELA/elanet/filter"
+	"github.com/elastos/Elastos.ELA/elanet/filter/customidfilter"
+	"github.com/elastos/Elastos.ELA/elanet/filter/nextturndposfilter"
+	"github.com/elastos/Elastos.ELA/elanet/filter/returnsidechaindepositcoinfilter"
+	"github.com/elastos/Elastos.ELA/elanet/filter/sidefilter"
+	"github.com/elastos/Elastos.ELA/elanet/filter/upgradefilter"
 	"github.com/elastos/Elastos.ELA/p2p/msg"
 )
 
@@ -200,6 +207,8 @@ func exec(t []string) string {
 			}
 		}
 		return bitsOf(f) + " " + sb.String()
+	case "txf":
+		return execTxf(t)
 	case "reload": // reload <bitsA> <hfA> <twA> <bitsB> <hfB> <twB> <data>: one Filter object, loaded with A, then Reload(B)
 		f := mkFilter(t[1], t[2], t[3], "-")
 		nb := mkFilter(t[4], t[5], t[6], "-").GetFilterLoadMsg()
@@ -455,6 +464,32 @@ func oracle(t []string, out string) *hx.Violation {
 				}
 			}
 		}
+	case "txf":
+		if out != "true" && out != "false" {
+			return nil
+		}
+		o := parseTxf(t)
+		var fl msg.FilterLoad
+		if fl.Deserialize(bytes.NewReader(o.wire)) != nil || fl.Tweak == math.MaxUint32 {
+			return nil
+		}
+		watched := map[string]bool{}
+		for _, a := range o.adds {
+			watched[string(a)] = true
+		}
+		pays := false
+		for _, ph := range o.outs {
+			if watched[string(ph)] {
+				pays = true
+			}
+		}
+		if pays && out == "false" {
+			if !o.confirmed && o.typ == filter.FTDPOS {
+				return nil // documented: the DPOS side filter does not consult the bloom filter for unconfirmed transactions
+			}
+			return &hx.Violation{Kind: "tx-false-negative", Detail: fmt.Sprintf("filter type %d: transaction pays to a script hash added with filteradd but Match%s returned false",
+				o.typ, map[bool]string{true: "Confirmed", false: "Unconfirmed"}[o.confirmed])}
+		}
 	case "peer":
 		if len(f) != 2 || f[0] != "ok" {
 			return nil
@@ -568,6 +603,8 @@ func bucket(t []string, out string) string {
 			return t[0] + "/empty-filter"
 		}
 		return t[0] + "/ok"
+	case "txf":
+		return fmt.Sprintf("txf/type%s/%s/%s", t[1], map[string]string{"1": "confirmed", "0": "unconfirmed"}[t[3]], cls)
 	case "reload":
 		if out == "panic" {
 			return "reload/panic"
@@ -851,6 +888,161 @@ func gen(g *hx.Gen) {
 	}
 }
 
+// ---------------------------------------------------------------- the filter layer the server dispatches to
+
+// newServerFilter is the closure of elanet.newServerPeer (its text is pinned by Gen.C39.serverDispatch);
+// IsDPOSTransaction reads nothing of the state, so an empty State stands in for the chain's.
+func newServerFilter() *filter.Filter {
+	return filter.New(func(typ uint8) filter.TxFilter {
+		switch typ {
+		case filter.FTBloom:
+			return bloom.NewTxFilter()
+		case filter.FTDPOS:
+			return sidefilter.New(&dstate.State{})
+		case filter.FTNexTTurnDPOSInfo:
+			return nextturndposfilter.New()
+		case filter.FTCustomID:
+			return customidfilter.New()
+		case filter.FTUpgrade:
+			return upgradefilter.New()
+		case filter.FTReturnSidechainDepositCoinFilter:
+			return returnsidechaindepositcoinfilter.New()
+		}
+		return nil
+	})
+}
+
+var typedTxTypes = []byte{0x00, 0x02, 0x03, 0x09, 0x0a, 0x0b, 0x0c, 0x0d, 0x0e, 0x0f, 0x10, 0x11, 0x12, 0x14, 0x15, 0x25, 0x41, 0x42, 0x51}
+
+// mkTypedTx builds a real transaction of the given type; vote: 0 none, 1 producer vote output, 2 CRC-only vote output.
+func mkTypedTx(ty byte, version byte, vote int, ptype int, lock uint32, outs [][]byte) interfaces.Transaction {
+	var pl interfaces.Payload
+	switch ctypes.TxType(ty) {
+	case ctypes.CoinBase:
+		pl = &payload.CoinBase{Content: []byte("c39")}
+	case ctypes.TransferAsset:
+		pl = &payload.TransferAsset{}
+	case ctypes.Record:
+		pl = &payload.Record{Type: "c39", Content: []byte{1}}
+	case ctypes.RegisterProducer, ctypes.UpdateProducer:
+		pl = &payload.ProducerInfo{}
+	case ctypes.CancelProducer:
+		pl = &payload.ProcessProducer{}
+	case ctypes.ActivateProducer:
+		pl = &payload.ActivateProducer{}
+	case ctypes.ReturnDepositCoin:
+		pl = &payload.ReturnDepositCoin{}
+	case ctypes.IllegalProposalEvidence:
+		pl = &payload.DPOSIllegalProposals{}
+	case ctypes.IllegalVoteEvidence:
+		pl = &payload.DPOSIllegalVotes{}
+	case ctypes.IllegalBlockEvidence:
+		pl = &payload.DPOSIllegalBlocks{}
+	case ctypes.IllegalSidechainEvidence:
+		pl = &payload.SidechainIllegalData{}
+	case ctypes.InactiveArbitrators:
+		pl = &payload.InactiveArbitrators{}
+	case ctypes.NextTurnDPOSInfo:
+		pl = &payload.NextTurnDPOSInfo{}
+	case ctypes.ProposalResult:
+		pl = &payload.RecordProposalResult{}
+	case ctypes.CRCProposal:
+		pl = &payload.CRCProposal{ProposalType: payload.CRCProposalType(ptype)}
+	case ctypes.RevertToPOW:
+		pl = &payload.RevertToPOW{}
+	case ctypes.RevertToDPOS:
+		pl = &payload.RevertToDPOS{}
+	case ctypes.ReturnSideChainDepositCoin:
+		pl = &payload.ReturnSideChainDepositCoin{}
+	default:
+		panic("harness: unsupported typed tx")
+	}
+	var outputs []*ctypes.Output
+	for i, ph := range outs {
+		var u common.Uint168
+		copy(u[:], ph)
+		outputs = append(outputs, &ctypes.Output{Value: common.Fixed64(i + 1), ProgramHash: u, Type: ctypes.OTNone, Payload: &outputpayload.DefaultOutput{}})
+	}
+	switch vote {
+	case 1:
+		outputs = append(outputs, &ctypes.Output{Value: 1, Type: ctypes.OTVote, Payload: &outputpayload.VoteOutput{Version: outputpayload.VoteProducerVersion,
+			Contents: []outputpayload.VoteContent{{VoteType: outputpayload.Delegate, CandidateVotes: []outputpayload.CandidateVotes{{Candidate: bytes.Repeat([]byte{2}, 33)}}}}}})
+	case 2:
+		outputs = append(outputs, &ctypes.Output{Value: 1, Type: ctypes.OTVote, Payload: &outputpayload.VoteOutput{Version: outputpayload.VoteProducerAndCRVersion,
+			Contents: []outputpayload.VoteContent{{VoteType: outputpayload.CRC, CandidateVotes: []outputpayload.CandidateVotes{{Candidate: bytes.Repeat([]byte{3}, 34), Votes: 1}}}}}})
+	}
+	return transaction.CreateTransaction(ctypes.TransactionVersion(version), ctypes.TxType(ty), 0, pl, []*ctypes.Attribute{}, nil, outputs, lock, []*program.Program{})
+}
+
+func safeHash(tx interfaces.Transaction) (h common.Uint256, ok bool) {
+	defer func() {
+		if recover() != nil {
+			ok = false
+		}
+	}()
+	return tx.Hash(), true
+}
+
+// txf <typ> <wire> <confirmed> <n> add.. <txType> <version> <vote> <ptype> <hash> <lock> <nOut> ph..
+type txfOp struct {
+	typ       uint8
+	wire      []byte
+	confirmed bool
+	adds      [][]byte
+	tx        interfaces.Transaction
+	hash      []byte
+	outs      [][]byte
+	ty        byte
+	ptype     int
+}
+
+func parseTxf(t []string) *txfOp {
+	o := &txfOp{typ: uint8(atoi(t[1])), wire: hx.UnHex(t[2]), confirmed: t[3] == "1"}
+	n := atoi(t[4])
+	k := 5
+	for i := 0; i < n; i++ {
+		o.adds = append(o.adds, hx.UnHex(t[k]))
+		k++
+	}
+	o.ty = byte(atoi(t[k]))
+	ver, vote := byte(atoi(t[k+1])), atoi(t[k+2])
+	o.ptype = atoi(t[k+3])
+	o.hash = hx.UnHex(t[k+4])
+	lock := u32(t[k+5])
+	m := atoi(t[k+6])
+	k += 7
+	for i := 0; i < m; i++ {
+		o.outs = append(o.outs, hx.UnHex(t[k]))
+		k++
+	}
+	if k != len(t) {
+		panic("harness: trailing tokens in txf op")
+	}
+	o.tx = mkTypedTx(o.ty, ver, vote, o.ptype, lock, o.outs)
+	return o
+}
+
+func execTxf(t []string) string {
+	o := parseTxf(t)
+	h := o.tx.Hash()
+	if !bytes.Equal(h[:], o.hash) {
+		return "hash-mismatch"
+	}
+	f := newServerFilter()
+	if err := f.Load(&msg.TxFilterLoad{Type: o.typ, Data: o.wire}); err != nil {
+		return "err"
+	}
+	for _, a := range o.adds {
+		if err := f.Add(a); err != nil {
+			return "err-add"
+		}
+	}
+	if o.confirmed {
+		return b2s(f.MatchConfirmed(o.tx))
+	}
+	return b2s(f.MatchUnconfirmed(o.tx))
+}
+
 func wireOf(r *hx.Rand) []byte {
 	fl := &msg.FilterLoad{Filter: r.Bytes(r.Pick(0, 0, 1, 2, 8, 100, 252, 253, 300)), HashFuncs: uint32(r.Pick(0, 1, 2, 10, 50, 51)),
 		Tweak: uint32(r.U64()), Flags: r.Byte()}
@@ -1045,6 +1237,58 @@ func genProtocol(g *hx.Gen) {
 	}
 }
 
+func genDispatch(g *hx.Gen) {
+	r := g.R
+	usable := []byte{}
+	for _, ty := range typedTxTypes {
+		if _, ok := safeHash(mkTypedTx(ty, 9, 0, 0x0500, 1, nil)); ok {
+			usable = append(usable, ty)
+		}
+	}
+	for i := 0; i < g.N(2500, 25000); i++ {
+		typ := r.Pick(0, 1, 2, 3, 4, 5, 5, 4, 3, 2, 1, 6, 255)
+		w := wireOf(r)
+		if r.Chance(5) {
+			w = w[:r.Intn(len(w)+1)]
+		}
+		var phs [][]byte
+		for j := 0; j < 4; j++ {
+			phs = append(phs, r.Bytes(21))
+		}
+		n := r.Intn(3)
+		ty := usable[r.Intn(len(usable))]
+		ver := byte(r.Pick(9, 9, 0))
+		if ver == 0 && ty >= 9 {
+			ver = 9
+		}
+		vote := 0
+		if ty == 0x02 {
+			vote = r.Pick(0, 1, 2)
+		}
+		ptype := r.Pick(0x0000, 0x0200, 0x0201, 0x02ff, 0x0300, 0x0400, 0x0401, 0x0410, 0x0500, 0x0501, 0x0502, 0x0503)
+		var outs [][]byte
+		for j := r.Intn(3); j > 0; j-- {
+			outs = append(outs, phs[r.Intn(len(phs))])
+		}
+		lock := uint32(r.U64())
+		tx := mkTypedTx(ty, ver, vote, ptype, lock, outs)
+		h, ok := safeHash(tx)
+		if !ok {
+			continue
+		}
+		var sb strings.Builder
+		fmt.Fprintf(&sb, "txf %d %s %d %d", typ, hx.Hex(w), r.Intn(2), n)
+		for j := 0; j < n; j++ {
+			sb.WriteString(" " + hx.Hex(phs[j]))
+		}
+		fmt.Fprintf(&sb, " %d %d %d %d %s %d %d", ty, ver, vote, ptype, hx.Hex(h[:]), lock, len(outs))
+		for _, o := range outs {
+			sb.WriteString(" " + hx.Hex(o))
+		}
+		g.Emit("%s", sb.String())
+	}
+}
+
 func main() {
-	hx.Main(&hx.Prop{Name: "C39", Gen: func(g *hx.Gen) { gen(g); genLoad(g); genProtocol(g) }, Exec: exec, Oracle: oracle, Nontrivial: nontrivial, Bucket: bucket})
+	hx.Main(&hx.Prop{Name: "C39", Gen: func(g *hx.Gen) { gen(g); genLoad(g); genProtocol(g); genDispatch(g) }, Exec: exec, Oracle: oracle, Nontrivial: nontrivial, Bucket: bucket})
 }
